@@ -363,7 +363,8 @@ def homog (ct : ColClass) (col : String) (rows : List Row) : Bool :=
 * `pc.match_substring_regex`: only for string columns; RE2 *search*; null for null.
 * `pa.array(values)` infers a type (`null` for an empty / all-`None` list, error for mixed numbers and strings),
   `pc.is_in(column, value_set)` rejects a value set whose type does not fit the column (a `null`-typed set fits a numeric
-  column but not a string column); a null cell is "in" iff the set contains a null. -/
+  column but not a string column; a string set against a numeric column is cast by parsing the strings - not
+  modelled); a null cell is "in" iff the set contains a null. -/
 namespace ArrowSem
 
 def and3 : Option Bool → Option Bool → Option Bool
@@ -440,6 +441,7 @@ def isinList (l : List Val) (f : RawFilter) (ct : ColClass) (rows : List Row) : 
   | none => .error .typeError
   | some t =>
     if t = ct.cls ∨ (t = .null ∧ ct = .num) then .ok (rows.filter (fun r => l.any (pyEq (r.get f.col))))
+    else if t = .str ∧ ct = .num then .error .notModelled   -- pyarrow tries to parse the strings as numbers ("2.5" matches 2.5)
     else .error .typeError
 
 def doIsin (f : RawFilter) (ct : ColClass) (rows : List Row) : Except Err (List Row) :=
